@@ -13,7 +13,9 @@ use std::sync::{Arc, Mutex, Condvar, mpsc};
 use std::sync::atomic::{AtomicUsize, AtomicBool, Ordering};
 use std::time::Duration;
 
-const WAIT: Duration = Duration::from_millis(60);
+fn wait() -> Duration {
+    Duration::from_millis(std::env::var("DYNASM_VERIF_WAIT_MS").ok().and_then(|s| s.parse().ok()).unwrap_or(60))
+}
 
 fn maps() -> Vec<(usize, usize, String)> {
     let txt = std::fs::read_to_string("/proc/self/maps").unwrap_or_default();
@@ -183,7 +185,7 @@ pub fn run(park_index: usize, mode: &str) {
         // did the reader get the lock while the assembler is parked?
         let got = {
             let mut a = acquired.0.lock().unwrap();
-            if a.0.is_none() { let (g, _) = acquired.1.wait_timeout(a, WAIT).unwrap(); a = g; }
+            if a.0.is_none() { let (g, _) = acquired.1.wait_timeout(a, wait()).unwrap(); a = g; }
             if a.0.is_none() { a.1 = true; out.lock().unwrap().push("rlock blocked".into()); }
             a.0.clone()
         };
@@ -191,7 +193,7 @@ pub fn run(park_index: usize, mode: &str) {
             // let the assembler run while the guard is held; see how far it gets
             let before = counter.load(Ordering::SeqCst);
             resume(&park);
-            std::thread::sleep(WAIT);
+            std::thread::sleep(wait());
             let progressed = counter.load(Ordering::SeqCst) - before;
             emit(format!("while-held hooks={} finished={}", progressed, finished.load(Ordering::SeqCst) as u8));
             { let mut rl = release.0.lock().unwrap(); *rl = true; release.1.notify_all(); }
